@@ -137,10 +137,16 @@ func c07HeadOfSize(statusLine string, fields string, S int) string {
 
 func TestVerif_C07_h1connseq(t *testing.T) {
 	s := verifh.New(t, "C07", "h1connseq",
-		"sequences of 3..7 requests of one client against a raw keep-alive HTTP/1.1 peer; each response is one of: 204, 304, answer to HEAD (with Content-Length), 200 with Content-Length: 0, 200 with a Content-Length body, 200 with a chunked body, each optionally preceded by 1..7 interim heads (100/102/103) and optionally with Connection: close; the final head has exactly S bytes, S in {minimal, L/2, L-1, L, L+1, 2L, L+4097, 8L} (with interim heads in the same write only S <= L or S > L+4096: the carried-over buffer is bounded by one read buffer), interim heads minimal or > L+4096; MaxResponseHeaderBytes L in {200, 300, 1000, 4096, 5000, 20000}; every position of the sequence gets every kind and size, in particular a head over the limit AFTER a body-less response on the same connection; answer per response: ok / big (headers exceeded) / many (too many 1xx) @ connection index, and for a refused first head the bytes the client took from the socket for it (= L); model = C07.H1Conn.connRun; every case non-trivial")
+		"sequences of 3..7 requests of one client against a raw keep-alive HTTP/1.1 peer; each response is one of: 204, 304, answer to HEAD (with Content-Length), the same body-less kinds carrying Transfer-Encoding: chunked and / or Content-Length (nothing follows the head, the connection stays open), 200 with Content-Length: 0, 200 with a Content-Length body, 200 with a chunked body, each optionally preceded by 1..7 interim heads (100/102/103) and optionally with Connection: close; the final head has exactly S bytes, S in {minimal, L/2, L-1, L, L+1, 2L, L+4097, 8L} (with interim heads in the same write only S <= L or S > L+4096: the carried-over buffer is bounded by one read buffer), interim heads minimal or > L+4096; MaxResponseHeaderBytes L in {200, 300, 1000, 4096, 5000, 20000}; every position of the sequence gets every kind and size, in particular a head over the limit AFTER a body-less response on the same connection; answer per response: ok / big (headers exceeded) / many (too many 1xx) @ connection index, and for a refused first head the bytes the client took from the socket for it (= L); model = C07.H1Conn.connRun; every case non-trivial")
 	r := s.Rand()
 	nseq := verifh.N(160, 4000)
+	wedges := 0
 	for q := 0; q < nseq; q++ {
+		if wedges >= 3 {
+			// every wedged call costs the whole client timeout: three reported ones are enough
+			s.Count("skipped-after-wedges")
+			continue
+		}
 		L := verifh.Pick(r, []int{200, 300, 1000, 4096, 5000, 20000})
 		peer := newC07KeepAlivePeer(t)
 		base := "http://" + peer.ln.Addr().String()
@@ -164,7 +170,11 @@ func TestVerif_C07_h1connseq(t *testing.T) {
 		var specs, got, humans []string
 		infra := ""
 		for i := 0; i < k && infra == ""; i++ {
-			kind := verifh.Pick(r, []string{"204", "304", "head", "empty", "cl-body", "chunked", "204", "head"})
+			// round 6: the body-less kinds also with every combination of framing fields (a 204 / 304 /
+			// answer to HEAD that carries Transfer-Encoding: chunked and / or Content-Length): the peer
+			// sends NOTHING after the head and keeps the connection open
+			kind := verifh.Pick(r, []string{"204", "304", "head", "empty", "cl-body", "chunked", "204", "head",
+				"204-te", "304-te-cl", "head-te", "204-cl", "304-cl-te"})
 			closeIt := r.Intn(8) == 0
 			nint := 0
 			if r.Intn(3) == 0 {
@@ -200,6 +210,20 @@ func TestVerif_C07_h1connseq(t *testing.T) {
 				fields = "Etag: \"x\"\r\n"
 			case "head":
 				fields = "Content-Length: 5\r\n"
+			case "204-te":
+				status = "HTTP/1.1 204 No Content"
+				fields = "Transfer-Encoding: chunked\r\n"
+			case "204-cl":
+				status = "HTTP/1.1 204 No Content"
+				fields = "Content-Length: 5\r\n"
+			case "304-te-cl":
+				status = "HTTP/1.1 304 Not Modified"
+				fields = "Transfer-Encoding: chunked\r\nContent-Length: 5\r\n"
+			case "304-cl-te":
+				status = "HTTP/1.1 304 Not Modified"
+				fields = "Content-Length: 7\r\nTransfer-Encoding: chunked\r\n"
+			case "head-te":
+				fields = "Transfer-Encoding: chunked\r\n"
 			case "empty":
 				fields = "Content-Length: 0\r\n"
 			case "cl-body":
@@ -248,7 +272,7 @@ func TestVerif_C07_h1connseq(t *testing.T) {
 			var err error
 			ptxt, pan := verifh.Safely(func() {
 				var rp *Response
-				if kind == "head" {
+				if strings.HasPrefix(kind, "head") {
 					rp, err = c.R().Head(base + path)
 				} else {
 					rp, err = c.R().Get(base + path)
@@ -288,6 +312,9 @@ func TestVerif_C07_h1connseq(t *testing.T) {
 			case strings.Contains(err.Error(), "too many 1xx"):
 				got = append(got, "many@"+strconv.Itoa(on))
 			default:
+				if strings.Contains(err.Error(), "Timeout") || strings.Contains(err.Error(), "deadline") {
+					wedges++
+				}
 				got = append(got, "err@"+strconv.Itoa(on)+":"+truncate(err.Error(), 120))
 			}
 		}
